@@ -1,6 +1,7 @@
 import Driver.Tf
 import Driver.Op
 import Driver.Body
+import Driver.Engine
 /-!
   Line-protocol driver.  One request per line:
 
@@ -23,6 +24,7 @@ def engineModel (eng : String) (args : List String) : Option String :=
   | "tfchain" => TfChain.model args
   | "op" => Op.model args
   | "body" => Body.model args
+  | "eng" => Eng.model args
   | _ => none
 
 def engineJudge (eng : String) (args obs : List String) : Bool :=
@@ -31,6 +33,7 @@ def engineJudge (eng : String) (args obs : List String) : Bool :=
   | "tfchain" => TfChain.judge args obs
   | "op" => Op.judge args obs
   | "body" => Body.judge args obs
+  | "eng" => Eng.judge args obs
   | _ => true
 
 def handle (line : String) : String :=
